@@ -109,6 +109,16 @@ impl Engine for MigrEngine {
         knobs.insert("synth_expired_winner".into(), c.chance(1, 3) as i64);
         knobs.insert("synth_legacy_markers".into(), if c.chance(1, 3) { 1 + c.below(3) as i64 } else { 0 });
         knobs.insert("synth_new_markers".into(), c.below(3) as i64);
+        // own tape: "scattered" synthesised sources - a device of several 256-block scan windows,
+        // multi-block records, duplicates and retirement chains placed across the window
+        // boundaries and against the end of the device (see synth_scatter)
+        let mut sk = Tape::fresh(mix(seed, 0x5CA7));
+        let mut store = store;
+        if sk.chance(1, 5) {
+            knobs.insert("source".into(), 2);
+            knobs.insert("synth_scatter".into(), 1);
+            store.data_blocks = *sk.pick(&[258u64, 270, 300, 511, 513, 530, 700, 770, 1008, 1030]) + sk.below(3) as u64;
+        }
         let _ = property;
         Scenario {
             engine: "migr".into(),
@@ -134,8 +144,12 @@ impl Engine for MigrEngine {
                 Some(i) => i,
                 None => return report,
             },
+            _ if sc.knob("synth_scatter", 0) == 1 => synth_scatter(sc, &mut pick, sc.seed),
             _ => synth_image(sc, &mut pick),
         };
+        if sc.knob("synth_scatter", 0) == 1 {
+            report.count("scattered_multi_window_sources", 1);
+        }
         report.count(&format!("source_mode_{source_mode}_v{version}"), 1);
         let allow = sc.knob("allow", 0) == 1;
         let decoded = codec::decode_image(&image, DecodeOptions { allow_ambiguous: allow, apply_journal: true });
@@ -491,6 +505,139 @@ pub fn image_from_workload(sim: &Arc<Sim>, sc: &Scenario, crash: bool, pick: &mu
     };
     env.cleanup();
     Some(image)
+}
+
+/// A synthesised image of several scan windows (recovery reads the data area in windows of 256
+/// blocks): multi-block records, older duplicates, complete / pending / half-written retirement
+/// chains and (optionally) an active journal, placed by preference so that they straddle or touch
+/// a window boundary or end exactly at the device's last block. Every feature is a state the
+/// documented layout allows; the independent decoder says what the image holds.
+pub fn synth_scatter(sc: &Scenario, t: &mut Tape, salt: u64) -> Vec<u8> {
+    let version = sc.store.format;
+    let size = (16 + sc.store.data_blocks as usize) * codec::BLOCK;
+    let now = sc.sim.epoch_ns;
+    let mut image = codec::empty_image(version, size, now / 1_000_000_000);
+    let total = (size / codec::BLOCK) as u64;
+    let windows: Vec<u64> = (1..).map(|k| codec::DATA_START + 256 * k).take_while(|b| *b < total).collect();
+    let mut occupied: Vec<(u64, u64)> = Vec::new();
+    let mut anchor = |t: &mut Tape, blocks: u64| -> Option<u64> {
+        for _ in 0..24 {
+            let s = match t.below(7) {
+                0..=2 if !windows.is_empty() => {
+                    // straddling, ending at or starting at a window boundary
+                    let b = *t.pick(&windows);
+                    (b + 1).saturating_sub(t.below(blocks as u32 + 2) as u64)
+                }
+                3 | 4 => total.saturating_sub(blocks + t.below(3) as u64), // against the device's end
+                5 => codec::DATA_START + t.below(4) as u64,
+                _ => codec::DATA_START + t.below((total - codec::DATA_START) as u32) as u64,
+            };
+            if s < codec::DATA_START || s + blocks > total {
+                continue;
+            }
+            if occupied.iter().any(|(a, n)| s < a + n && *a < s + blocks) {
+                continue;
+            }
+            occupied.push((s, blocks));
+            return Some(s);
+        }
+        None
+    };
+    let key_of = |i: usize| -> Vec<u8> {
+        if i < sc.keys.len() {
+            sc.keys[i].clone()
+        } else {
+            format!("scatter:{i:03}").into_bytes()
+        }
+    };
+    let value_for = |t: &mut Tape, key: &[u8], want_blocks: u64, id: usize, gen: u32| -> Vec<u8> {
+        let hlen = codec::header_len(version, key.len());
+        let len = if want_blocks <= 1 {
+            1 + t.below((codec::BLOCK - hlen - 1).min(3000) as u32) as usize
+        } else {
+            // the last block holds between 1 byte and a full block
+            (want_blocks as usize - 1) * codec::BLOCK - hlen + 1 + t.below(codec::BLOCK as u32 - 1) as usize
+        };
+        harness::plain_value(id % 250, 9, gen.wrapping_add((salt & 0xffff) as u32), len)
+    };
+    let n = 3 + t.below(8) as usize;
+    let mut placed: Vec<(Vec<u8>, u64)> = Vec::new();
+    for i in 0..n {
+        let key = key_of(i);
+        let want = *t.pick(&[1u64, 1, 2, 3, 3, 4, 5, 7]);
+        let value = value_for(t, &key, want, i, 1);
+        let blocks = codec::extent_blocks(version, key.len(), value.len());
+        let Some(s) = anchor(t, blocks) else { continue };
+        let ts = now - 1_000_000 + i as u64;
+        let expiry = if version >= 2 && t.chance(1, 5) { now + 3_600_000_000_000 } else { 0 };
+        codec::put_record(&mut image, version, s, &key, &value, ts, expiry);
+        placed.push((key, ts));
+    }
+    // older generations of keys that are there (what a crash before the retirement leaves)
+    for d in 0..t.below(3) as usize {
+        if placed.is_empty() {
+            break;
+        }
+        let (key, ts) = placed[t.below(placed.len() as u32) as usize].clone();
+        let want = *t.pick(&[1u64, 2, 3, 4]);
+        let value = value_for(t, &key, want, 200 + d, 2);
+        let blocks = codec::extent_blocks(version, key.len(), value.len());
+        let Some(s) = anchor(t, blocks) else { continue };
+        codec::put_record(&mut image, version, s, &key, &value, ts - 1 - d as u64, 0);
+    }
+    // retirement chains: complete, pending (every block says so), or a complete head over tails that
+    // still hold what was there before (a retirement cut short)
+    for _ in 0..t.below(4) {
+        let blocks = *t.pick(&[1u64, 2, 3, 5, 6, 9]);
+        let Some(s) = anchor(t, blocks) else { continue };
+        let at = s as usize * codec::BLOCK;
+        match t.below(3) {
+            0 => {
+                let m = codec::encode_retirement(s, blocks, true);
+                image[at..at + m.len()].copy_from_slice(&m);
+            }
+            1 => {
+                let m = codec::encode_retirement(s, blocks, false);
+                image[at..at + m.len()].copy_from_slice(&m);
+            }
+            _ => {
+                let junk = harness::plain_value(99, 3, s as u32, blocks as usize * codec::BLOCK);
+                image[at..at + junk.len()].copy_from_slice(&junk);
+                // make sure no tail block reads as a record head or a marker
+                for b in 0..blocks as usize {
+                    image[at + b * codec::BLOCK] = 0x11;
+                    image[at + b * codec::BLOCK + 1] = 0x11;
+                }
+                let m = codec::encode_retirement_block(s, blocks, t.chance(1, 2));
+                image[at..at + codec::BLOCK].copy_from_slice(&m);
+            }
+        }
+    }
+    // an active allocation journal over extents that were being written when the power went:
+    // whatever they hold is not part of the contents
+    if t.chance(1, 4) {
+        let mut extents = Vec::new();
+        for j in 0..1 + t.below(3) {
+            let blocks = *t.pick(&[1u64, 2, 4, 6]);
+            let Some(s) = anchor(t, blocks) else { continue };
+            if t.chance(1, 2) {
+                // a record that made it to the device completely although the batch did not commit
+                let key = format!("uncommitted:{j}").into_bytes();
+                let value = value_for(t, &key, blocks, 150 + j as usize, 3);
+                if codec::extent_blocks(version, key.len(), value.len()) == blocks {
+                    codec::put_record(&mut image, version, s, &key, &value, now + 10 + j as u64, 0);
+                }
+            }
+            extents.push((s, blocks));
+        }
+        if !extents.is_empty() {
+            extents.sort_unstable();
+            let j = codec::encode_journal(5, &extents);
+            let at = codec::JOURNAL_START as usize * codec::BLOCK;
+            image[at..at + j.len()].copy_from_slice(&j);
+        }
+    }
+    image
 }
 
 /// Build a legacy image directly: records, duplicates, expired winners, multi-block records,
